@@ -16,6 +16,20 @@ CHECKS = {
         note='Trusted: purity of seeded batch generation (C02) for the reference rows; simulator-invocation counter '
              'with max_parallel_batches=1 as the count of consumed batches. Bounded to toy models and small sizes.',
         design_ref='4 C01'),
+    'C02': dict(
+        level='exploration',
+        technique='BFS over all histories (depth <= 2/3) of unrelated prior computations before every measured seeded call, '
+                  'and exhaustive enumeration of small recording DAGs x all dependency-respecting insertion orders, with a '
+                  'differential oracle (bit-identical to the no-history baseline) and a generator-state chain oracle',
+        text='Every sequence of reseeding/consuming np.random, other generate/infer calls, compilations and earlier batches '
+             'is executed before each measured call (generate, BatchHandler.compute, Rejection, SMC) and the observation '
+             'must equal the baseline bit for bit; every DAG of <= 3 (4) recording nodes is built in every legal insertion '
+             'order and all stochastic nodes must consume one generator as one chain in one fixed dependency-respecting '
+             'order with an initial state that depends only on (seed, batch index). The multiprocessing client is '
+             'cross-checked free-running; thorough repeats a table under another PYTHONHASHSEED.',
+        note='Trusted: numpy RandomState determinism; uuid-based private node names are pinned (three offsets) and are '
+             'outside the quantifier; real worker processes add no schedule coverage.',
+        design_ref='4 C02'),
     'C03': dict(
         level='exploration',
         technique='exhaustive enumeration of model-graph programs (all node kinds, ordered parent tuples, positional/named '
